@@ -508,8 +508,10 @@ def check_cold(run, case):
             fired[0] = True
             st_['off'] = True
             b_go.set()
-            if not b_done.wait(30):
-                res['stuck'] = True
+            if not b_done.wait(3):
+                # B waits for something A holds: resume A, judge the
+                # outcomes all the same
+                fired[0] = 'blocked'
 
     tracer, st_ = _trace_thread(on_line)
 
@@ -534,13 +536,14 @@ def check_cold(run, case):
     tb.start()
     ta.join(90)
     tb.join(90)
-    if 'stuck' in res or 'a' not in res or 'b' not in res:
+    if 'a' not in res or 'b' not in res:
         run.inconclusive += 1
         return
-    run.case(case, fired[0], fp=(variant, tuple(case['a']), tuple(case['b']),
+    run.case(case, fired[0] is True, fp=(variant, tuple(case['a']), tuple(case['b']),
                                  at, bool(case.get('same_statement'))),
              cls=['cold-start', 'cold-' + variant] + (
-                 ['preempted-inside-evaluation'] if fired[0] else []))
+                 ['preempted-inside-evaluation'] if fired[0] is True else
+                 ['b-blocked-until-a-resumed'] if fired[0] else []))
     where = '%s:%s' % (case.get('file', '?'), case.get('line', '?'))
     for who, got, exp, si in (('A (suspended at %s)' % where, res['a'],
                                exp_a, sa),
